@@ -844,7 +844,7 @@ def check_C17(ctx):
     trace_stage(ctx, "time-units", S("trace", "Trace_Duration.cfg"), S("trace", "Trace_Duration.tla"), up, reset_ev="__none__",
                 keyfn=lambda e, run: "units:%s" % e.get("ev"))
     tpath = ctx.path("corruptions.ndjson")
-    p = run_jbv(["c17-record", ctx.seed, 400 if q else 20000, tpath, BUNDLED], timeout=7200)
+    p = run_jbv(["c17-record", ctx.seed, 720 if q else 20000, tpath, BUNDLED], timeout=7200)
     if p.returncode != 0:
         raise ToolError("c17-record failed")
     trace_stage(ctx, "corruptions", S("trace", "Trace_Laws.cfg"), S("trace", "Trace_Laws.tla"), tpath, reset_ev="__none__",
